@@ -217,15 +217,15 @@ class World:
     def cache_snapshot(self):
         out = {}
         for oid, rec in self.objs.items():
-            for path, name in world.cache_entries(rec.op):
-                out[(oid, path, name)] = True
+            for path, name, vid in world.cache_entries(rec.op, with_ids=True):
+                out[(oid, path, name)] = vid
         return out
 
     def update_provenance(self, before, writer):
         after = self.cache_snapshot()
         for k in after:
-            if k not in before and k not in self.prov:
-                self.prov[k] = writer
+            if (k not in before and k not in self.prov) or (k in before and before[k] != after[k]):
+                self.prov[k] = writer  # new entry, or an existing entry overwritten with another object
         for k in list(self.prov):
             if k not in after:
                 del self.prov[k]
